@@ -8,6 +8,7 @@ import (
 	"slices"
 	"strings"
 	"sync"
+	"sync/atomic"
 	"time"
 
 	"github.com/gordian-engine/gordian/gexchange"
@@ -42,6 +43,10 @@ type Connection struct {
 
 	setConsensusHandlerRequests chan setConsensusHandlerRequest
 
+	// The handler that the single registered topic validator dispatches to.
+	// Swapped atomically, so there is never a moment without a topic validator.
+	consensusHandler atomic.Pointer[tmconsensus.ConsensusHandler]
+
 	wg sync.WaitGroup
 
 	disconnectOnce sync.Once
@@ -51,36 +56,12 @@ type Connection struct {
 // NewConnection returns a new Connection based on
 // a host that has already joined a network.
 func NewConnection(ctx context.Context, log *slog.Logger, h *Host, codec tmcodec.MarshalCodec) (*Connection, error) {
-	consensusTopic, err := h.PubSub().Join(topicConsensus)
-	if err != nil {
-		return nil, err
-	}
-
-	consensusSub, err := consensusTopic.Subscribe()
-	if err != nil {
-		return nil, err
-	}
-
-	dhtPeer, err := dht.New(
-		ctx,
-		h.Libp2pHost(),
-
-		dht.ProtocolPrefix("/gordian"), // TODO: maybe this should not be hardcoded.
-	)
-	if err != nil {
-		return nil, fmt.Errorf("failed to create DHT peer: %w", err)
-	}
-
 	c := &Connection{
 		log: log,
 
 		codec: codec,
 
-		h:       h,
-		dhtPeer: dhtPeer,
-
-		consensusTopic: consensusTopic,
-		consensusSub:   consensusSub,
+		h: h,
 
 		outgoingProposals: make(chan tmconsensus.ProposedHeader, 1),
 
@@ -91,6 +72,35 @@ func NewConnection(ctx context.Context, log *slog.Logger, h *Host, codec tmcodec
 
 		disconnected: make(chan struct{}),
 	}
+
+	// Register the one topic validator before joining the topic,
+	// so that no message can ever be relayed without validation.
+	if err := h.PubSub().RegisterTopicValidator(topicConsensus, c.consensusValidator); err != nil {
+		return nil, fmt.Errorf("failed to register consensus topic validator: %w", err)
+	}
+
+	consensusTopic, err := h.PubSub().Join(topicConsensus)
+	if err != nil {
+		return nil, err
+	}
+	c.consensusTopic = consensusTopic
+
+	consensusSub, err := consensusTopic.Subscribe()
+	if err != nil {
+		return nil, err
+	}
+	c.consensusSub = consensusSub
+
+	dhtPeer, err := dht.New(
+		ctx,
+		h.Libp2pHost(),
+
+		dht.ProtocolPrefix("/gordian"), // TODO: maybe this should not be hardcoded.
+	)
+	if err != nil {
+		return nil, fmt.Errorf("failed to create DHT peer: %w", err)
+	}
+	c.dhtPeer = dhtPeer
 
 	// Ensure that the subscriptions are ready,
 	// as their setup happens in the background.
@@ -105,10 +115,6 @@ func NewConnection(ctx context.Context, log *slog.Logger, h *Host, codec tmcodec
 
 func (c *Connection) background(ctx context.Context) {
 	defer c.wg.Done()
-
-	if err := c.h.PubSub().RegisterTopicValidator(topicConsensus, ignoreMessage); err != nil {
-		c.log.Warn("Failed to initialize consensus topic validator", "err", err)
-	}
 
 	for {
 		select {
@@ -175,35 +181,11 @@ func (c *Connection) background(ctx context.Context) {
 			}
 
 		case req := <-c.setConsensusHandlerRequests:
-			// There is always a topic validator, so unregister the previous one.
-			if err := c.h.PubSub().UnregisterTopicValidator(topicConsensus); err != nil {
-				c.log.Warn("Failed to unregister previous topic validator for consensus messages", "err", err)
-			}
-
-			// NOTE: there is a potential race right here,
-			// where we temporarily have no topic validator set,
-			// between removing and replacing it.
-			//
-			// Unfortunately it doesn't look like there is a way to atomically swap the validator,
-			// nor is there an obvious way to leave the topic and
-			// instantaneously join it while setting a validator.
-			//
-			// Perhaps the alternative is to have a fixed method as the topic validator,
-			// and use sync/atomic to swap the handler.
-
-			// Always reassign a topic validator.
-			if req.Handler == nil {
-				if err := c.h.PubSub().RegisterTopicValidator(topicConsensus, ignoreMessage); err != nil {
-					c.log.Warn("Failed to register consensus topic validator when clearing handler", "err", err)
-				}
-			} else {
-				if err := c.h.PubSub().RegisterTopicValidator(
-					topicConsensus,
-					c.libp2pConsensusMessageValidator(req.Handler),
-				); err != nil {
-					c.log.Warn("Failed to register topic validator for consensus messages", "err", err)
-				}
-			}
+			// The topic validator is registered once, in NewConnection,
+			// and reads the handler atomically; swapping the handler
+			// never leaves the topic without a validator.
+			h := req.Handler
+			c.consensusHandler.Store(&h)
 
 			close(req.Ready)
 		}
@@ -214,6 +196,17 @@ func (c *Connection) background(ctx context.Context) {
 // This is useful as a default strategy before (*Connection).SetConsensusHandler is called.
 func ignoreMessage(context.Context, peer.ID, *pubsub.Message) pubsub.ValidationResult {
 	return pubsub.ValidationIgnore
+}
+
+// consensusValidator is the fixed pubsub validator for the consensus message topic.
+// It dispatches to the handler most recently set through SetConsensusHandler,
+// and ignores every message while there is no handler.
+func (c *Connection) consensusValidator(ctx context.Context, id peer.ID, msg *pubsub.Message) pubsub.ValidationResult {
+	hp := c.consensusHandler.Load()
+	if hp == nil || *hp == nil {
+		return ignoreMessage(ctx, id, msg)
+	}
+	return c.libp2pConsensusMessageValidator(*hp)(ctx, id, msg)
 }
 
 // libp2pConsensusMessageValidator returns a pubsub validator for the consensus message topic.
